@@ -10,6 +10,7 @@ import (
 	"fmt"
 	"math/big"
 	"net/http"
+	"strings"
 	"sync"
 	"time"
 
@@ -124,6 +125,12 @@ var (
 
 func tsaChain(n int, defect string) *pki.Chain {
 	key := fmt.Sprintf("%d|%s", n, defect)
+	var cleanLeaf *x509.Certificate
+	if strings.HasPrefix(defect, "ca-") {
+		// a defective CA sits above the very same leaf certificate the clean
+		// chain has (same issuer name and key, so it chains to either)
+		cleanLeaf = tsaChain(n, "").Certs[0]
+	}
 	tsaMu.Lock()
 	defer tsaMu.Unlock()
 	if c, ok := tsaChains[key]; ok {
@@ -175,6 +182,9 @@ func tsaChain(n int, defect string) *pki.Chain {
 		}
 	}
 	c := pki.MustBuild(specs...)
+	if cleanLeaf != nil {
+		c.Certs[0] = cleanLeaf
+	}
 	tsaChains[key] = c
 	return c
 }
@@ -195,6 +205,15 @@ func NewTSA(behaviour string, n int) *TSA {
 		t.trusted = tsaChain(n, "").Certs[n-1]
 	}
 	return t
+}
+
+// TSACleanRoots returns the roots of the defect-free authority chains.
+func TSACleanRoots() []*x509.Certificate {
+	var out []*x509.Certificate
+	for _, n := range []int{2, 3, 4} {
+		out = append(out, tsaChain(n, "").Certs[n-1])
+	}
+	return out
 }
 
 // Roots returns the caller's trusted TSA root pool.
